@@ -136,7 +136,13 @@ declarations:
   - decl: int id() const
 - decl: Abc *newAbc(int id) +owner(caller)
 - decl: Cls *findCls(int id)
-- decl: Cls *newCls(int id) +owner(caller)
+# result attributes under fattrs next to argument attributes under attrs (input.rst, Attributes)
+- decl: Cls *newCls(int id)
+  attrs:
+    id:
+      value: true
+  fattrs:
+    owner: caller
 - decl: Cls &refCls(int id)
 - decl: const Cls &crefCls(int id)
 - decl: Cls valCls(int id)
@@ -149,6 +155,12 @@ declarations:
   -
   - _both
 - decl: int dflt(int a, int b = 2)
+- decl: int zdflt(int a, int by = 0, double w = 0.0)
+- decl: enum Grade { G_LOW = 1, G_MID = G_LOW + 4, G_HIGH, G_TOP = 100, G_PEAK }
+- decl: int gradeValue(Grade g)
+- decl: int sumRank(const int *values +dimension(..), int nvalues)
+  options:
+    F_assumed_rank_max: 2
 - decl: |
     template<typename T> T tmpl(T a)
   cxx_template:
@@ -232,6 +244,10 @@ void pick(int a, double b = 0.5);
 void over(int a);
 void over(double a);
 int dflt(int a, int b = 2);
+int zdflt(int a, int by = 0, double w = 0.0);
+enum Grade { G_LOW = 1, G_MID = G_LOW + 4, G_HIGH, G_TOP = 100, G_PEAK };
+int gradeValue(Grade g);
+int sumRank(const int *values, int nvalues);
 template<typename T> T tmpl(T a);
 template<typename T, typename U> double weigh(T count, U scale);
 void order(int a, double b, const std::string &c, bool d);
@@ -283,6 +299,9 @@ Color nextColor(Color c) { vt_txt("RECV nextColor c="); vt_i((int) c); vt_txt("\
 void pick(int a, double b) { vt_txt("RECV pick a="); vt_i(a); vt_txt(" b="); vt_d(b); vt_txt("\n"); }
 void over(int a) { vt_txt("RECV over(int) a="); vt_i(a); vt_txt("\n"); }
 void over(double a) { vt_txt("RECV over(double) a="); vt_d(a); vt_txt("\n"); }
+int zdflt(int a, int by, double w) { vt_txt("RECV zdflt a="); vt_i(a); vt_txt(" by="); vt_i(by); vt_txt(" w="); vt_d(w); vt_txt("\n"); return a * 10 + by; }
+int gradeValue(Grade g) { vt_txt("RECV gradeValue g="); vt_i((int) g); vt_txt("\n"); return 1000 + (int) g; }
+int sumRank(const int *values, int nvalues) { int t = 0; vt_txt("RECV sumRank n="); vt_i(nvalues); vt_txt("\n"); for (int i = 0; i < nvalues; i++) t += values[i]; return t; }
 int dflt(int a, int b) { vt_txt("RECV dflt a="); vt_i(a); vt_txt(" b="); vt_i(b); vt_txt("\n"); return a * 10 + b; }
 template<> int tmpl<int>(int a) { vt_txt("RECV tmpl<int> a="); vt_i(a); vt_txt("\n"); return a + 1; }
 template<> double tmpl<double>(double a) { vt_txt("RECV tmpl<double> a="); vt_d(a); vt_txt("\n"); return a * 2; }
@@ -341,7 +360,7 @@ def scenario_case(args):
          "rename": NC("rename", ""), "name": NC("name", ""), "whichc": NC("which", "_const"), "whichm": NC("which", "_mutable"), "takes": N("takes", ""), "byval": N("byVal", ""), "TA": P + cs("Abc"), "newabc": N("newAbc", ""), "abcid": NA("id", ""), "abcctor": NA("ctor", ""),
          "p1i": N("put", "_one_int"), "p1d": N("put", "_one_double"), "p2i": N("put", "_two_int"), "p2d": N("put", "_two_double"), "find": N("findCls", ""), "new": N("newCls", ""), "ref": N("refCls", ""), "cref": N("crefCls", ""),
          "val": N("valCls", ""), "next": N("nextColor", ""), "level": N("levelValue", ""), "over0": N("over", "_0"), "over1": N("over", "_1"), "pick0": N("pick", ""), "pick1": N("pick", "_both"), "dflt0": N("dflt", "_0"),
-         "dflt1": N("dflt", "_1"), "tint": N("tmpl", "_int"), "tdbl": N("tmpl", "_double"), "w0": N("weigh", "_0"), "w1": N("weigh", "_1"), "order": N("order", ""), "nsf": NN("nsf", ""),
+         "dflt1": N("dflt", "_1"), "z0": N("zdflt", "_0"), "z1": N("zdflt", "_1"), "z2": N("zdflt", "_2"), "grade": N("gradeValue", ""), "sumrank": N("sumRank", ""), "tint": N("tmpl", "_int"), "tdbl": N("tmpl", "_double"), "w0": N("weigh", "_0"), "w1": N("weigh", "_1"), "order": N("order", ""), "nsf": NN("nsf", ""),
          "innerf": NI("innerf", "")}
     drv = drv_c.C_PRELUDE + "\n".join('#include "%s"' % h for h in sorted(os.listdir(out)) if h.startswith("wrap") and h.endswith(".h")) + r"""
 int main(void) {
@@ -372,6 +391,9 @@ int main(void) {
   %(over0)s(4); %(over1)s(-1.5);
   %(pick0)s(6); %(pick1)s(7, 1.5);   /* a blank default_arg_suffix entry keeps the plain name for that variant (tutorial.yaml) */
   printf("OBS dflt"); obs_i(%(dflt0)s(3)); obs_i(%(dflt1)s(3, 4)); printf("\n");
+  printf("OBS zdflt"); obs_i(%(z0)s(3)); obs_i(%(z1)s(3, 4)); obs_i(%(z2)s(3, 4, 0.5)); printf("\n");
+  printf("OBS grade"); obs_i(%(grade)s(%(P)sG_LOW)); obs_i(%(grade)s(%(P)sG_MID)); obs_i(%(grade)s(%(P)sG_HIGH)); obs_i(%(grade)s(%(P)sG_TOP)); obs_i(%(grade)s(%(P)sG_PEAK)); printf("\n");
+  { int sr[3] = {1, 2, 3}; printf("OBS sumrank"); obs_i(%(sumrank)s(sr, 3)); printf("\n"); }
   printf("OBS tmpl"); obs_i(%(tint)s(41)); obs_d(%(tdbl)s(1.25)); printf("\n");
   printf("OBS weigh"); obs_d(%(w0)s(3, 2.5)); obs_d(%(w1)s(4000000000L, 0.5f)); printf("\n");
   %(order)s(1, 2.5, "three", true); %(order)s(-1, -2.5, "", false);
@@ -394,7 +416,7 @@ int main(void) {
             proto_errs.append(("prototype", "scenario", "[naming %s] %s: the object parameter is %s, the C++ method is %s" % (
                 naming, d[key], "const" if m.group(1) else "not const", "const" if is_const_method else "not const")))
     exp_obs = ["OBS ids 5 9", "OBS add 8 13 4", "OBS twice 42", "OBS slot 5 9", "OBS names 0:[] 3:[bee]", "OBS which 1 2 1", "OBS byval 7 0", "OBS find 100 101", "OBS ref 3:[zed] 3:[zed] 100", "OBS new 7 8", "OBS val 8", "OBS abc 3 4", "OBS put 11 12 21 22",
-               "OBS color 3 4 0", "OBS level 110 100 101", "OBS dflt 32 34", "OBS tmpl 42 " + A.rnd(A.NATIVE["double"], 2.5),
+               "OBS color 3 4 0", "OBS level 110 100 101", "OBS dflt 32 34", "OBS zdflt 30 34 34", "OBS grade 1001 1005 1006 1100 1101", "OBS sumrank 6", "OBS tmpl 42 " + A.rnd(A.NATIVE["double"], 2.5),
                "OBS weigh %s %s" % (A.rnd(A.NATIVE["double"], 7.5), A.rnd(A.NATIVE["double"], 2e9)), "OBS ns 2 3"]
     D = A.NATIVE["double"]
     exp_recv = ["RECV Cls::Cls id=5", "RECV Cls::Cls id=9", "RECV Cls::add this=5 x=3", "RECV Cls::add this=9 x=4", "RECV Cls::add this=5 x=-1",
@@ -412,7 +434,10 @@ int main(void) {
                 "RECV nextColor c=0", "RECV nextColor c=3", "RECV nextColor c=4",
                 "RECV levelValue lv=10", "RECV levelValue lv=0", "RECV levelValue lv=1",
                 "RECV over(int) a=4", "RECV over(double) a=" + A.rnd(D, -1.5), "RECV pick a=6 b=" + A.rnd(D, 0.5), "RECV pick a=7 b=" + A.rnd(D, 1.5),
-                "RECV dflt a=3 b=2", "RECV dflt a=3 b=4", "RECV tmpl<int> a=41", "RECV tmpl<double> a=" + A.rnd(D, 1.25),
+                "RECV dflt a=3 b=2", "RECV dflt a=3 b=4",
+                "RECV zdflt a=3 by=0 w=" + A.rnd(D, 0.0), "RECV zdflt a=3 by=4 w=" + A.rnd(D, 0.0), "RECV zdflt a=3 by=4 w=" + A.rnd(D, 0.5),
+                "RECV gradeValue g=1", "RECV gradeValue g=5", "RECV gradeValue g=6", "RECV gradeValue g=100", "RECV gradeValue g=101", "RECV sumRank n=3",
+                "RECV tmpl<int> a=41", "RECV tmpl<double> a=" + A.rnd(D, 1.25),
                 "RECV weigh<int,double> count=3 scale=" + A.rnd(D, 2.5), "RECV weigh<long,float> count=4000000000 scale=" + A.rnd(A.NATIVE["float"], 0.5),
                 "RECV order a=1 b=%s c=5:[three] d=1" % A.rnd(D, 2.5), "RECV order a=-1 b=%s c=0:[] d=0" % A.rnd(D, -2.5),
                 "RECV ns::nsf a=1", "RECV ns::inner::innerf a=1", "RECV Cls::~Cls this=5", "RECV Cls::~Cls this=9"]
